@@ -688,6 +688,10 @@ class NetSim:
                         menu.append(("dup", first))
                     if "duplate" in self.dev and first.kind == "genuine":
                         menu.append(("dup", first, 1.0))
+                    if "dupmid" in self.dev and first.kind == "genuine":
+                        # the copy arrives one to three round trips later (after ACK-of-ACK rounds)
+                        menu.append(("dup", first, 0.025))
+                        menu.append(("dup", first, 0.055))
                     if "delay" in self.dev:
                         menu.append(("delay", first, 0.030))
                         menu.append(("delay", first, 1.5))
